@@ -659,6 +659,7 @@ def run_once(case, seed, amb):
     if case.get("cfg_poison"):
         poison_config(case, shared, amb)
     donor_zip = donor_noise = None
+    donor_envs = []
     if case.get("via_load"):
         # a donor model (same configuration and seed, its own environment) is saved before anything is instrumented or
         # poisoned; the model that trains is `load(zip, env=<this run's env>)`
@@ -691,6 +692,12 @@ def run_once(case, seed, amb):
             model = getattr(sb3, case["algo"]).load(donor_zip, env=venv, device="cpu")
             rec.in_load = False
             model.set_logger(Logger(folder=None, output_formats=[]))
+        elif case.get("via_set_env"):
+            dbase, dvenv = build_env(case, amb)
+            donor_envs.append(dbase)
+            base.seed(seed + 7)                  # the user seeds the environment the model will train on
+            model = build_model(case, seed, dvenv, dbase, shared)
+            model.set_env(venv)
         else:
             model = build_model(case, seed, venv, base, shared)
         rec.mark("constructed")
@@ -753,10 +760,11 @@ def run_once(case, seed, amb):
                 "dig": dig}
     finally:
         rec.close()
-        try:
-            base.close()
-        except Exception:
-            pass
+        for d in [base] + donor_envs:
+            try:
+                d.close()
+            except Exception:
+                pass
         del junk
 
 
@@ -851,6 +859,13 @@ def gen_case(rng, thorough, widen):
     c["via_load"] = wrap != "raw" and rng.chance(0.25)
     if c["via_load"]:
         c["cfg_poison"] = False   # this run's configuration objects are not used by a loaded model
+    # the model is constructed (seeded) on another environment and then moved to this run's environment with
+    # `set_env(env)`; the user seeded that environment with `env.seed(f(seed))` but — like every user — not its action
+    # space. The run must still be a function of the seed alone (seeded change C10-i). Oracle only: the trace model does
+    # not describe this flow.
+    c["via_set_env"] = (not c["via_load"]) and wrap in ("dummy", "vecnorm") and rng.chance(0.15)
+    if c["via_set_env"]:
+        c.update(pre_env_seed=False, pre_reset=False, opts=None, opts_when=None, opts_tags=None)
     return c
 
 
@@ -1032,6 +1047,8 @@ def shrink_candidates(case):
         return
     if case.get("via_load"):
         yield alt(via_load=False)
+    if case.get("via_set_env"):
+        yield alt(via_set_env=False)
     if case.get("learn_calls", 1) > 1:
         yield alt(learn_calls=1)
     if case.get("opts"):
@@ -1373,7 +1390,7 @@ def check_cases(ctx, cases):
         rep.count(f"obs:{case['obs']}")
         rep.count(f"act:{case['act']}")
         rep.count("seed:" + ("0" if case["seed"] == 0 else "small" if case["seed"] < 10 else "large"))
-        for k in ("use_sde", "her", "noise", "env_py", "env_npg", "pre_env_seed", "pre_reset", "opt_mem", "cfg_poison", "via_load"):
+        for k in ("use_sde", "her", "noise", "env_py", "env_npg", "pre_env_seed", "pre_reset", "opt_mem", "cfg_poison", "via_load", "via_set_env"):
             if case.get(k):
                 rep.count(f"opt:{k}" + (f"={case[k]}" if isinstance(case[k], str) else ""))
         if case.get("opts"):
@@ -1395,6 +1412,8 @@ def check_cases(ctx, cases):
             if m[0] in ("step", "train_end", "vreset"):
                 rep.count("marks:" + m[0])
         oracle(ctx, case, A, B, C)
+        if case.get("via_set_env"):
+            continue   # oracle only (see gen_case)
         predict, meas, groups = build_ops(case, seed, A)
         plan.append((case, A, B, len(ops), groups))
         ops += [predict, meas]
